@@ -215,12 +215,12 @@ Qed.
 
 (* ---------- RemoveNode, every single fault ---------- *)
 Theorem remove_node_ref : forall w n fl, RefP w -> held w = [] ->
-  let '(w', t') := run1 12 w (mkTh (remove_node n) 0 fl) in
+  let '(w', t') := run1 14 w (mkTh (remove_node n) 0 fl) in
   finished t' = true /\
-  (RefP w' \/ (* the plugin removal was hit by the failure after the store record was removed *) fl = Some 4%nat).
+  (RefP w' \/ (* the plugin removal was hit by the failure after the store record was removed *) fl = Some 6%nat).
 Proof.
   intros [ps ns rs ws hs] n fl R Hh. cbn in Hh. subst hs.
-  destruct fl as [[|[|[|[|[|j]]]]]|]; crunch2; (split; [reflexivity|]);
+  destruct fl as [[|[|[|[|[|[|[|j]]]]]]]|]; crunch2; (split; [reflexivity|]);
     try (left; repeat apply refp_held; exact R);
     try (right; reflexivity);
     try (left; repeat apply refp_held;
